@@ -890,6 +890,29 @@ func genC17(c *Ctx) {
 			xc, yc := cloneOrNil(x), cloneOrNil(y) // windows of larger buffers with live bytes behind them
 			c.Case(class, line, stable3(func() string { return boolAns(crypto.SPOCKVerify(pa, xc, pb, yc)) }))
 		}
+		// the two proofs in ONE slice (a caller that checks a proof against itself, or keeps both in one buffer): the
+		// verdict is a function of the values; and the slice holds the same bytes afterwards
+		{
+			one := cloneOrNil(p1)
+			nk1 := new(big.Int).Sub(blsR, k1)
+			npk1 := skFromInt(nk1).PublicKey()
+			c.Case("same-slice/same-key", fmt.Sprintf("spock 0x%s %s 0x%s %s", k1.Text(16), hx(p1), k1.Text(16), hx(p1)),
+				stable3(func() string { return boolAns(crypto.SPOCKVerify(pk1, one, pk1, one)) }))
+			c.Case("same-slice/negated-key", fmt.Sprintf("spock 0x%s %s 0x%s %s", k1.Text(16), hx(p1), nk1.Text(16), hx(p1)),
+				stable3(func() string { return boolAns(crypto.SPOCKVerify(pk1, one, npk1, one)) }))
+			c.Case("same-slice/negated-key-first", fmt.Sprintf("spock 0x%s %s 0x%s %s", nk1.Text(16), hx(p1), k1.Text(16), hx(p1)),
+				stable3(func() string { return boolAns(crypto.SPOCKVerify(npk1, one, pk1, one)) }))
+			both := cloneOrNil(append(append([]byte{}, p1...), p2...)) // adjacent windows of one buffer, in both orders
+			c.Case("same-buffer/adjacent", fmt.Sprintf("spock 0x%s %s 0x%s %s", k1.Text(16), hx(p1), k2.Text(16), hx(p2)),
+				stable3(func() string { return boolAns(crypto.SPOCKVerify(pk1, both[:48], pk2, both[48:96])) }))
+			c.Case("same-buffer/adjacent-swapped", fmt.Sprintf("spock 0x%s %s 0x%s %s", k2.Text(16), hx(p2), k1.Text(16), hx(p1)),
+				stable3(func() string { return boolAns(crypto.SPOCKVerify(pk2, both[48:96], pk1, both[:48])) }))
+			if hx(one) != hx(p1) || hx(both) != hx(p1)+hx(p2) {
+				c.Case("same-slice/arguments-unchanged", "expect ok #", "proof-bytes-changed-by-verification")
+			} else {
+				c.Case("same-slice/arguments-unchanged", "expect ok #", "ok")
+			}
+		}
 		emit("honest", k1, pk1, p1, k2, pk2, p2)
 		emit("swapped-pairs", k2, pk2, p2, k1, pk1, p1)
 		emit("crossed-proofs", k1, pk1, p2, k2, pk2, p1)
